@@ -300,3 +300,42 @@ func init() {
 func SharedUnchanged() bool {
 	return shared20 == shared20Copy && shared31 == shared31Copy && shared40 == shared40Copy
 }
+
+// Bodies added later are appended here so that the indices of the earlier ones stay stable.
+func init() {
+	const long40a = "CVSS:4.0/AV:N/AC:L/AT:N/PR:N/UI:N/VC:H/VI:L/VA:N/SC:N/SI:N/SA:N/E:P/CR:H/IR:M/AR:L/MAV:A/MAC:H/MAT:P/MPR:L/MUI:P/MVC:L/MVI:N/MVA:H/MSC:L/MSI:S/MSA:N/S:P/AU:Y/R:U/V:C/RE:M/U:Amber"
+	const long40b = "CVSS:4.0/AV:P/AC:H/AT:P/PR:H/UI:A/VC:N/VI:N/VA:L/SC:H/SI:L/SA:H/E:U/CR:L/IR:L/AR:H/MAV:L/MAC:L/MAT:N/MPR:H/MUI:A/MVC:H/MVI:H/MVA:L/MSC:N/MSI:L/MSA:S/S:N/AU:N/R:I/V:D/RE:H/U:Clear"
+	one := func(name string, f func() string) Body {
+		return Body{"one call only: " + name, func(keep *[]Retained) string { return f() }}
+	}
+	Bodies = append(Bodies,
+		Body{"v2.Parse(last element without its colon)", p20("AV:N/AC:L/Au:N/C:N/I:N/A")},
+		Body{"v2.Parse(no colon at all)", p20("AV/AC/Au/C/I/A")},
+		Body{"v4 long vectors (every metric defined): Vector() of one kept across Vector() of another", func(keep *[]Retained) string {
+			var a, b gocvss40.CVSS40
+			setAll(a.Set, long40a)
+			setAll(b.Set, long40b)
+			v1 := a.Vector()
+			*keep = append(*keep, Retained{Orig: v1, Clone: strings.Clone(v1)})
+			v2 := b.Vector()
+			*keep = append(*keep, Retained{Orig: v2, Clone: strings.Clone(v2)})
+			return v1 + " " + v2
+		}},
+		one("v2 EnvironmentalScore", func() string { o := shared20; return fmt.Sprint(o.EnvironmentalScore()) }),
+		one("v2 TemporalScore", func() string { o := shared20; return fmt.Sprint(o.TemporalScore()) }),
+		one("v3.1 EnvironmentalScore", func() string { o := shared31; return fmt.Sprint(o.EnvironmentalScore()) }),
+		one("v3.1 TemporalScore", func() string { o := shared31; return fmt.Sprint(o.TemporalScore()) }),
+		one("v3.0 EnvironmentalScore", func() string {
+			var o gocvss30.CVSS30
+			setAll(o.Set, "CVSS:3.0/AV:L/AC:H/PR:L/UI:R/S:C/C:N/I:H/A:L/E:P/RC:U/CR:L/MS:U/MPR:H")
+			return fmt.Sprint(o.EnvironmentalScore())
+		}),
+		one("v3.0 Impact", func() string {
+			var o gocvss30.CVSS30
+			setAll(o.Set, "CVSS:3.0/AV:L/AC:H/PR:L/UI:R/S:C/C:N/I:H/A:L")
+			return fmt.Sprint(o.Impact())
+		}),
+		one("v4 Score (object built by Set)", func() string { o := shared40; return fmt.Sprint(o.Score()) }),
+		one("v4 Nomenclature", func() string { o := shared40; return o.Nomenclature() }),
+	)
+}
